@@ -891,6 +891,42 @@ func classify(c *C13Case) (classes []string, nontrivial bool) {
 	}
 	r := resources(s)
 	scalar("args", len(a.Args) > 0, len(s.Process.Args) > 0)
+	{
+		// argument values some layer might want to interpret
+		defined := map[string]bool{}
+		for _, e := range s.Process.Env {
+			k, _, _ := strings.Cut(e, "=")
+			defined[k] = true
+		}
+		for _, e := range a.Env {
+			if k, rm := marked(e.K); !rm {
+				defined[k] = true
+			}
+		}
+		dollar, escaped, ref := false, false, false
+		for _, arg := range a.Args {
+			if strings.Contains(arg, "$") || strings.Contains(arg, "%") || strings.Contains(arg, "\\") {
+				dollar = true
+			}
+			if strings.Contains(arg, "$$") {
+				escaped = true
+			}
+			for name := range defined {
+				if name != "" && strings.Contains(arg, "$("+name+")") {
+					ref = true
+				}
+			}
+		}
+		if dollar {
+			add("args:value_with_metacharacters")
+		}
+		if escaped {
+			add("args:value_with_double_dollar")
+		}
+		if ref {
+			add("args:value_with_reference_to_defined_variable")
+		}
+	}
 	if n := a.Hooks.count(); n > 0 {
 		families++
 		if s.Hooks != nil {
@@ -1302,6 +1338,25 @@ func TestExh_C13(t *testing.T) {
 	// keys whose first byte sorts below the removal marker (and one-character keys):
 	// remove+set of one key in one adjustment, the set wins
 	for _, c := range oddByteSweep() {
+		o := runC13(c)
+		o.Classes = append([]string{"sweep"}, o.Classes...)
+		r.Record(c, o)
+		if o.Fail != "" {
+			t.Fatalf("C13: %s", o.Fail)
+		}
+		n++
+	}
+	// values are opaque strings: $$, $(NAME) with NAME defined in the spec or by the same
+	// adjustment, ${NAME}, printf and backslash syntax are written as requested
+	{
+		s := rspec.Spec{Version: "1.1.0", Process: &rspec.Process{Cwd: "/", Args: []string{"old"}, Env: []string{"E1=one", "PATH=/bin"}}, Linux: &rspec.Linux{}}
+		meta := []string{"sh", "-c", "echo $$ > /run/app.pid", "CC=$(E1)", "$(E2)", "$(PATH):$(undefined)", "$$(E1)", "${E1}", "$E1", "$", "$(", "%s", "%(E1)s", "a\\nb"}
+		c := C13Case{Spec: s, Reps: 4, Adj: Adj{
+			Args:        meta,
+			Env:         []KV{{K: "E2", V: "$(E1)"}, {K: "E3", V: "$$"}},
+			Annotations: map[string]string{"k1": "$(k2)", "k2": "$$"},
+			Hooks:       &AdjHooks{Prestart: []AdjHook{{Path: "/bin/h1", Args: meta, Env: []string{"X=$(E1)", "Y=$$"}}}},
+		}}
 		o := runC13(c)
 		o.Classes = append([]string{"sweep"}, o.Classes...)
 		r.Record(c, o)
